@@ -249,7 +249,10 @@ R.field_types("DatagramTransport", g_n="int", g_data="map[int,bytes]", g_addr="m
 R.field_types("StreamReader", g_data="bytes", g_eof="bool")
 R.field_types("QuicLayer", g_hs="bool", g_term="bool", g_pings="set[int]", g_dirty="bool", g_timer="Optional[float]",
               g_drained="bool", g_n_iss="int", g_n_ret="int", g_n_term="int", g_last_cid="bytes", g_fin="set[int]",
-              g_tx="map[int,bytes]", g_tx_fin="set[int]")
+              g_tx="map[int,bytes]", g_tx_fin="set[int]",
+              # real attributes of QuicConnection a changed adapter might read (declared so that such code is ANALYSED, not
+              # merely reported as unsupported): arbitrary values of their types
+              _host_cids="list[QuicConnectionId]", original_destination_connection_id="bytes", host_cid="bytes")
 
 _AIO = dict(trusted=True, note="asyncio (stdlib): trusted stub with ghost state")
 R.contract("asyncio.get_running_loop", returns="EventLoop", **_AIO)
@@ -704,10 +707,16 @@ R.contract(
 # `async def` bodies are not modelled as coroutines; their SYNCHRONOUS stretch up to the first `await` runs to
 # completion like a callback and is put under a block contract (the statements are extracted from the real function).
 # ping(): a new, pending future is filed under a fresh uid, that uid is handed to send_ping, and the cycle runs
+# asyncio.shield(f): a NEW outer future; cancelling the task that awaits it cancels the outer future only, never f (asyncio
+# documentation) - so a waiter the protocol holds stays in the protocol's hands ("only the protocol touches the futures it
+# created" is an obligation at every await: what is handed to the event loop is never a held waiter itself)
+R.contract("asyncio.shield", trusted=True, params={"a0": "Future"}, returns="Future", allocates=True, note="asyncio.shield: returns a new future wrapping its argument")
 _PING = dict(
     region={"anchor": "sync-stretch"},
+    returns="Future",
     modifies=_PROTO_MOD,
     ensures=PINV + _TX_POST + [
+        "result != waiter",
         "uid in PW(self) and PW(self)[uid] == waiter and not waiter.g_done",
         "uid in self._quic.g_pings",
         "forall(lambda u: implies(u != uid, (u in PW(self)) == (u in old(PW(self))) and implies(u in PW(self), PW(self)[u] == old(PW(self))[u])))",
@@ -727,8 +736,11 @@ R.contract(
     region={"anchor": "sync-stretch"},
     assume_pre=PINV + [_H_CONNECTED],
     raises={"AssertionError": "self._connected_waiter is not None"},
+    returns="Optional[Future]",
     modifies=["self._connected_waiter"],
     ensures=PINV + [
+        # what is awaited is a shield around the waiter, never the waiter itself
+        "implies(self._connected_waiter is not None, result is not None and some(result) != some(self._connected_waiter))",
         "implies(old(self._connected), self._connected_waiter is None)",
         "implies(not old(self._connected), self._connected_waiter is not None and not some(self._connected_waiter).g_done)",
         "same(PW(self), old(PW(self))) and self._connected == old(self._connected)",
